@@ -3,7 +3,7 @@
    core/numba_kernels.py, api/fmm/helpers.py and the operator factories on every run. *)
 From Coq Require Import Reals String List.
 From BVgen Require Import NumbaKernels Dispatch.
-From BV Require Import Kernels.KernelTactics Kernels.DispatchModel Kernels.C05Lemmas Kernels.SmallK Kernels.SmallKComplex.
+From BV Require Import Kernels.KernelTactics Kernels.DispatchModel Kernels.C05Lemmas Kernels.SmallK Kernels.SmallKComplex Kernels.Invariance.
 Import ListNotations.
 Open Scope R_scope.
 Open Scope string_scope.
@@ -140,3 +140,20 @@ Theorem C05_small_k_complex_single_layer :
   <= ((kr * kr + ki * ki) * r / (4 * PI)) * ((kr * kr + ki * ki) * r / (4 * PI)).
 Proof. exact helmholtz_sl_small_complex_k. Qed.
 Print Assumptions C05_small_k_complex_single_layer.
+
+(* General complex k with |k| r <= 1: the double-layer and adjoint double-layer bounds of the property,
+   |K_helm - K_lap| <= |k|^2/(4 pi) * |n.(y-x)|/r  (<= |k|^2/(4 pi) for a unit normal), squared moduli, all x <> y.
+   Proof: |(1 - z) e^z - 1| <= |z|^2 for |z| <= 1 by the same ray comparison, with e^a (a-1) + 1 <= a^2 on [-1, 1]. *)
+Theorem C05_small_k_complex_double_layers :
+  forall x0 x1 x2 y0 y1 y2 nx0 nx1 nx2 ny0 ny1 ny2 kr ki p q : R, (x0, x1, x2) <> (y0, y1, y2) ->
+  let r := sqrt (r2 x0 x1 x2 y0 y1 y2) in
+  (kr * kr + ki * ki) * (r * r) <= 1 ->
+  let bound (d : R) := ((kr * kr + ki * ki) / (4 * PI) * (d / r)) * ((kr * kr + ki * ki) / (4 * PI) * (d / r)) in
+  let dl := helmholtz_double_layer_regular x0 x1 x2 y0 y1 y2 nx0 nx1 nx2 ny0 ny1 ny2 kr ki in
+  let ldl := fst (laplace_double_layer_regular x0 x1 x2 y0 y1 y2 nx0 nx1 nx2 ny0 ny1 ny2 p q) in
+  let adl := helmholtz_adjoint_double_layer_regular x0 x1 x2 y0 y1 y2 nx0 nx1 nx2 ny0 ny1 ny2 kr ki in
+  let ladl := fst (laplace_adjoint_double_layer_regular x0 x1 x2 y0 y1 y2 nx0 nx1 nx2 ny0 ny1 ny2 p q) in
+  (fst dl - ldl) * (fst dl - ldl) + snd dl * snd dl <= bound (dotd x0 x1 x2 y0 y1 y2 ny0 ny1 ny2) /\
+  (fst adl - ladl) * (fst adl - ladl) + snd adl * snd adl <= bound (dotd x0 x1 x2 y0 y1 y2 nx0 nx1 nx2).
+Proof. exact helmholtz_dl_adl_small_complex_k. Qed.
+Print Assumptions C05_small_k_complex_double_layers.
